@@ -12,7 +12,17 @@ open NitroVerif.Gql NitroVerif.Ts NitroVerif.DeclCfg NitroVerif.SchemaDecls Nitr
 /-- the default configuration: no `scalarTypes` entry, the built-in texts parsed -/
 def cfg : Cfg := { parses := builtinParses }
 
-def doc : TsDoc := OpTypes.W.S.items
+/-- `directive @skip(if: Boolean!) on FIELD | FRAGMENT_SPREAD | INLINE_FRAGMENT` (the operation checker needs it defined) -/
+def skipDef : TsItem :=
+  .directiveDef { name := "skip", args := [{ name := "if", ty := .nonNull (.named "Boolean" {}) }],
+                  locations := ["FIELD", "FRAGMENT_SPREAD", "INLINE_FRAGMENT"] }
+
+/-- the witness schema of the first stage plus the definition of `@skip` -/
+def doc : TsDoc := OpTypes.W.S.items ++ [skipDef]
+
+def S : Schema := ⟨doc⟩
+
+theorem typeDefs_S : S.typeDefs = OpTypes.W.S.typeDefs := rfl
 
 /-- the schema declaration file the model emits for the witness schema -/
 def file : File := match schemaFile cfg doc with | .ok f => f | .error _ => []
@@ -36,7 +46,7 @@ def scalarOf (cfg : Cfg) (doc : TsDoc) (n : Name) (v : J) : Bool :=
   | none => false
 
 /-- the specification context of the witness -/
-def ctx : Exec.Ctx := { S := OpTypes.W.S, F := fun _ => none, scalar := scalarOf cfg doc, fuel := 16 }
+def ctx : Exec.Ctx := { S := S, F := fun _ => none, scalar := scalarOf cfg doc, fuel := 16 }
 
 theorem scalarTypes_eq : scalarTypes cfg doc =
     [("Int", .single "number"), ("String", .single "string"), ("Boolean", .single "boolean")] := by decide
@@ -103,7 +113,13 @@ theorem cfgOk : CfgOk cfg ctx where
     · rw [parse_boolean,
         mem_prim_iff (by simp [Ty.isOpaque])]
       simp [primMem, J.isBool]
-  inhabited := Ref.W.inhabitedW
+  inhabited := by
+    intro n hc
+    have e : ctx.S.typeDefs = OpTypes.W.ctx.S.typeDefs := rfl
+    have h1 : OpTypes.W.ctx.S.isComposite n = true := by
+      simpa only [Schema.isComposite, Schema.kindOf?, Schema.typeDef?, e] using hc
+    have h2 := Ref.W.inhabitedW n h1
+    simpa only [Schema.possibleTypes, Schema.objectImplementers, Schema.typeDef?, e] using h2
 
 /-- the operation file of the witness: `import type * as Schema from ""` -/
 def main : File := OpTypes.W.opFile
